@@ -205,3 +205,17 @@ def tails(rng):
     out += [rng.choice(out) for _ in range(rng.randint(0, 2))]
     rng.shuffle(out)
     return out
+
+
+def narrowing(rng):
+    """Same-length codes over a narrow alphabet (a-f), a few all-digit ones and one or two over a wider alphabet: which class
+    an extractor settles on depends on which of them it has looked at so far."""
+    L = rng.choice([2, 2, 3])
+    out = set()
+    while len(out) < rng.choice([6, 8, 10]):
+        out.add(''.join(rng.choice('abcdef') for _ in range(L)))
+    out = sorted(out)
+    out += [''.join(rng.choice('0123456789') for _ in range(L)) for _ in range(rng.randint(1, 2))]
+    out += [''.join(rng.choice('xyzw') for _ in range(L)) for _ in range(rng.randint(1, 2))]
+    rng.shuffle(out)
+    return out
